@@ -30,23 +30,29 @@ LEVEL_TEXT = ("Generated-input search: thousands of random digraphs plus enumera
               "Counter. Exploration is the right level: the domain (all digraphs) is infinite and the oracle is exact, "
               "so every explored case is decided, but nothing is claimed beyond what was generated."
               ' Added while validating sensitivity: hubs and parallel edges with 70 000 - 1 100 000 entries waiting at once, chains of 150 000 - 1 200 000 states, layered graphs; an atheris (libFuzzer) campaign with the oracle inside the target.')
-LEVEL_NOTE = ("Trusted: the 20-line BFS reference in props/c07.py, Hypothesis' generators. Assumes labels are irrelevant "
-              "to the search and that the harness leaves the interpreter recursion limit at its default.")
-ASSUMPTIONS = ["transition labels are irrelevant to the search (only targets are read)",
+LEVEL_NOTE = ("Trusted: the 20-line BFS reference in props/c07.py, Hypothesis' generators. Assumes every listed transition is an edge "
+              "whatever its label and that the harness leaves the interpreter recursion limit at its default.")
+ASSUMPTIONS = ["every listed transition is an edge whatever its label (labels are drawn from action names, integer ids and probabilities incl. 0, 0.0, None)",
                "the interpreter's default recursion limit is left untouched by the harness"]
 CLASS_FLOORS = {"multi_pred": 0.3}
 
 
 # ----------------------------------------------------------------------------- generators
+# what a transition's first component can be in a legal game: an action name, an integer action id, or a
+# probability (including the degenerate 0 / 0.0 / 1 of a board whose tiles never or always break)
+LABELS = ["x", "a", "", "Down", 0, 1, 2, -1, 0.0, 1.0, 0.5, 0.25, 1e-300, -0.0, True, False, None]
+
+
 @st.composite
 def graphs(draw):
     n = draw(st.integers(1, 40))
     dense = draw(st.integers(0, 3))
     kmax = (1, 2, 4, 6)[dense]
+    pool = draw(st.sampled_from([["x"], LABELS, [0, 0.0, 1, "x"], [0.0], [0]]))
     tl = []
     for s in range(n):
         k = draw(st.integers(0, kmax))
-        tl.append([("x", draw(st.integers(0, n - 1))) for _ in range(k)])
+        tl.append([(draw(st.sampled_from(pool)), draw(st.integers(0, n - 1))) for _ in range(k)])
     nf = draw(st.integers(1, min(4, n)))
     finals = [draw(st.integers(0, n - 1)) for _ in range(nf)]
     if draw(st.booleans()):
@@ -116,19 +122,19 @@ def layered(width, depth):
     return dict(tl=tl, finals=[depth * width], shape=f"layered-{width}x{depth}")
 
 
-def board_case(length, width, seed):
+def board_case(length, width, seed, probs=(0.1, 0.1, 0.1), game="game_c"):
     r = repo()
     rg = r.roberta_generator
     moves, rewards, loose = rg.gen_rnd_board(seed, length, width, 0.3, 6, True)
     d = tempfile.mkdtemp(prefix="c07_")
     path = os.path.join(d, "b.py")
     try:
-        rg.write_robots(path, length, width, moves, rewards, loose, 0.1, 0.1, 0.1)
+        rg.write_robots(path, length, width, moves, rewards, loose, *probs)
         games = r.conditionalrewards.read_dict_from_file(path)
     finally:
         shutil.rmtree(d, ignore_errors=True)
-    g = games["game_c"]
-    return dict(tl=g["transition_list"], finals=g["final_states"], board=[length, width, seed])
+    g = games[game]
+    return dict(tl=g["transition_list"], finals=g["final_states"], board=[length, width, seed, list(probs), game])
 
 
 def deep_cases(tier):
@@ -154,6 +160,10 @@ def deep_cases(tier):
         boards = [(2, 2, 1), (3, 60, 2)] if tier == "quick" else [(2, 2, 1), (3, 60, 2), (3, 400, 3), (40, 10, 4)]
         for (w, l, s) in boards:
             yield board_case(l, w, s)
+        # boards whose tiles / robot / light never or always break: transitions labelled 0, 0.0 and 1
+        for probs in ((1, 0.1, 0.1), (0.0, 0.0, 0.0), (0.5, 1, 0), (1.0, 1.0, 1.0)):
+            for game in ("game_a", "game_b", "game_c"):
+                yield board_case(3, 3, 5, probs, game)
     return gen
 
 
@@ -224,6 +234,8 @@ def check_case(case):
         v.cls("self_loop")
     if len(seen) < n:
         v.cls("has_unreaching_states")
+    if any((lab == 0 or lab is None) and not isinstance(lab, str) for u in expect for lab, _ in tl[u]):
+        v.cls("zero_or_none_label_on_reaching_state")
     v.nontrivial = multi or depth > 900 or len(set(finals)) >= 2
 
     # clause 1: the search
